@@ -242,6 +242,9 @@ pub struct PhysEntry {
 #[derive(Clone, Debug, Default)]
 pub struct MConn {
     pub server_dead: bool,
+    /// the client noticed that the server is gone and kept the connection (it held data or
+    /// borrows at that moment); from then on only a receive that visits it removes it
+    pub expired: bool,
     pub chans: BTreeMap<u64, VecDeque<PhysEntry>>,
 }
 
@@ -599,9 +602,11 @@ impl Model {
                 self.conns.insert((c, s), MConn::default());
             }
         }
-        let dead: Vec<(Cid, Sid)> = self.conns.iter().filter(|(k, v)| k.0 == c && v.server_dead).map(|(k, _)| *k).collect();
+        let dead: Vec<(Cid, Sid)> = self.conns.iter().filter(|(k, v)| k.0 == c && v.server_dead && !v.expired).map(|(k, _)| *k).collect();
         for k in dead {
-            if !self.dead_conn_matters(k.0, k.1) {
+            if self.dead_conn_matters(k.0, k.1) {
+                self.conns.get_mut(&k).unwrap().expired = true;
+            } else {
                 self.conns.remove(&k);
             }
         }
